@@ -189,13 +189,19 @@ class MindsDBParser(Parser):
         if 'database' not in params:
             raise ParsingException("CREATE CHATBOT requires the parameter 'database'")
 
-        database = Identifier(params.pop('database'))
+        def to_identifier(name, value):
+            # the value is a quoted name or a name
+            if isinstance(value, Identifier):
+                return value
+            if isinstance(value, str) and value != '':
+                return Identifier(value)
+            raise ParsingException(f"CREATE CHATBOT: parameter '{name}' must be a name")
+
+        database = to_identifier('database', params.pop('database'))
         model_param = params.pop('model', None)
         agent_param = params.pop('agent', None)
-        model = Identifier(
-            model_param) if model_param is not None else None
-        agent = Identifier(
-            agent_param) if agent_param is not None else None
+        model = to_identifier('model', model_param) if model_param is not None else None
+        agent = to_identifier('agent', agent_param) if agent_param is not None else None
         return CreateChatBot(
             name=p.identifier,
             database=database,
